@@ -125,7 +125,8 @@ class Gen(object):
             term = rng.choice([None, None, ['add', 100], ['neg']])
             return [['scan', [g], rng.choice([0, 1, -5]), r, term]], INT
         if c == 'minmax':
-            return [[rng.choice(['min', 'max']), rng.choice([None, ['neg']]) if ty == INT else None, r]], ty
+            # in reduce mode an empty lifetime emits None: the output is not of the item type
+            return [[rng.choice(['min', 'max']), rng.choice([None, ['neg']]) if ty == INT else None, r]], (ANY if r else ty)
         if c == 'clip':
             lo, hi = rng.choice([(None, 3), (1, None), (1, 4), (2, 2)])
             return [['clip', lo, hi]], INT
